@@ -19,6 +19,9 @@ BASE = {
  'redefinition': '@4 takes @1\ngive back 1\n\nsay 1\n@4 takes @2\ngive back 2\n\nsay @4 taking 1\n',
  'function-name-written': '@4 takes @1\ngive back @1\n\nsay 1\nPut 5 into @4\nsay 2\n',
  'variable-then-function': 'Put 9001 into @4\nsay @4\n@4 takes @1\ngive back @1\n\nsay 2\n',
+ 'loop-locals': 'Put 0 into @1\nwhile @1 is less than 3\nbuild @1 up\nrock @2 with @1\nsay @2\n\nsay @1\n',
+ 'block-locals': 'if true\nPut 9001 into @2\nsay @2\n\nif true\nrock @2 with 5\nsay @2\n\nPut 1 into @3\nif @3\nPut 2 into @1\n\nif @3\nsay @1\n\n',
+ 'function-twice': '@4 takes @1 and @2\nPut @1 plus @2 into @3\ngive back @3\n\nsay @4 taking 1, 2\nsay @4 taking 9001, 4\nsay @4 taking 5, 6\n',
  'aliases': 'let @1 be 9001\nlet @2 be nothing\nshout @1 without @2\nwhisper @1 of 2\nscream @1 between 2\nif @1 is as great as @2\nsay "ge"\nelse\nsay "lt"\n\nuntil @2 is as strong as 2\nbuild @2 up\n\nsay @2\nburn @1 into @3\nsay @3\ngive back @1\n',
 }
 NAMES = {
@@ -38,6 +41,9 @@ NAMES = {
  'proper-accented': ['Herr Müller', 'Élan Vital', 'Frau Ëlse Brühl', 'Doktor Bäcker'],
  'proper-accented-upper': ['HERR MÜLLER', 'ÉLAN VITAL', 'FRAU ËLSE BRÜHL', 'DOKTOR BÄCKER'],
  'near-names': ['elan', 'élan', 'elän', 'the elan'],
+ 'proper-prefixes': ['Johnny B', 'Johnny B Goode', 'Johnny Bravo', 'B Goode Johnny'],
+ 'proper-prefixes-upper': ['JOHNNY B', 'JOHNNY B GOODE', 'JOHNNY BRAVO', 'B GOODE JOHNNY'],
+ 'common-prefixes': ['my heart', 'my hearts', 'your heart', 'the heart'],
 }
 BOUNDS = {'programs': '%d templates x %d naming schemes (every name kind, re-cased variants, fresh names) + per-mention re-casing + keyword re-casing (upper / capitalised / alternating)' % (len(BASE), len(NAMES)),
           'values': 'number placeholders are any double (loop bound in -1..=3)', 'observables': 'written lines and outcome of the transformed program equal those of the simple-lower original (z3, for all placeholder values)'}
